@@ -50,6 +50,8 @@ def main():
                          cwd=wt, env={"PYTHONPATH": wt}, timeout=3000)
             res["suite_with_change"] = {"rc": rc, "tail": out[-300:]}
         res["checks"] = []
+        evf = os.path.join(VERIF, "evidence", "%s.json" % pid)     # evidence belongs to runs against /repo itself
+        saved = open(evf).read() if os.path.exists(evf) else None
         for s in seeds:
             rc, out = sh("./check %s --tier quick --seed %d" % (pid, s), cwd=VERIF, env={"VERIF_REPO": wt}, timeout=3000)
             lines = [l for l in out.splitlines() if l.startswith("VIOLATION") or l.startswith("KNOWN-FINDING")]
@@ -68,6 +70,8 @@ def main():
             res["checks"].append({"seed": s, "rc": rc, "violations": len(viol),
                                   "lines": viol[:4] + [l for l in lines if not l.startswith("VIOLATION")][:4],
                                   "first_replay": replay, "tail": out[-200:]})
+        if saved is not None:
+            open(evf, "w").write(saved)
     finally:
         sh("git -C %s checkout -- sympde" % wt)
     detected = any(c["rc"] == 1 and c["violations"] > 0 for c in res["checks"])
